@@ -417,6 +417,7 @@ class Scheduler:
         _CURRENT_SCHED = self
         for h in RESET_HOOKS:
             h()
+        Thread._counter = 0        # default thread names ("Thread-N") restart with every run: recorded choice sequences replay exactly
 
         def main_wrapper():
             try:
